@@ -3,9 +3,10 @@
    an object is either linked into a scheduler queue (touched only under the scheduler
    lock) or held by the one task that dequeued / allocated it.  This file states that
    discipline on a small abstract model and proves that it excludes conflicting
-   accesses.  That compress.c / expand.c FOLLOW the discipline is NOT proved here: the
-   lockset check classifies every heap-class access as locked / unlocked and the
-   unlocked ones are listed in the evidence as relying on this invariant. *)
+   accesses.  That compress.c / expand.c FOLLOW the discipline is shown in
+   OwnLang.v / OwnCheck.v / OwnSound.v on the regenerated hand-over skeleton
+   (Gen/OwnProg.v); this one-mutex, one-queue model is an instance of the state used
+   there (OwnExamples.ownership_model_instance). *)
 From Coq Require Import List Arith Bool.
 Import ListNotations.
 
